@@ -9,9 +9,12 @@ from z3 import Not, And
 def check_one(hyps, goal, background, timeout_ms=20000, want_model=False):
     t0 = time.time()
     verdict, model, why = 'unknown', None, ''
-    for attempt, cfg in enumerate(({}, {'smt.mbqi': False}, {'smt.random_seed': 7, 'smt.arith.solver': 2})):
+    # most obligations are e-matching proofs: MBQI off first (fast), then the default, then another seed
+    plan = (({'smt.mbqi': False}, max(timeout_ms // 4, 2000)), ({}, timeout_ms // 2),
+            ({'smt.mbqi': False, 'smt.random_seed': 7, 'smt.arith.solver': 2}, timeout_ms))
+    for cfg, tmo in plan:
         s = z3.Solver()
-        s.set('timeout', timeout_ms if attempt == 0 else timeout_ms // 2)
+        s.set('timeout', tmo)
         for k, v in cfg.items():
             s.set(k, v)
         s.add(*background)
